@@ -529,6 +529,7 @@ func checkC02(c *Ctx, r *Report) {
 	ruleDeclareThenInit(c, r, "declare-then-init")
 	ruleDupScope(c, r, "dup-scope")
 	ruleFieldAccess(c, r, "field-access")
+	ruleVarintWrappers(c, r, "slot-operand-codec", "")
 	// scope exit helpers
 	r.rule("scope-exit", 3, "endScope pops exactly the locals it removes; popN emits the matching instruction; addLocal declares with depth -1")
 	if _, fd := c.find("parser.endScope"); fd != nil {
